@@ -5791,7 +5791,7 @@ func (t TimeRange) MinTimeNano() int64 {
 	if t.Min.IsZero() {
 		return MinTime
 	}
-	return t.Min.UnixNano()
+	return saturatedUnixNano(t.Min)
 }
 
 // MaxTimeNano returns the maximum time in nanoseconds since the epoch.
@@ -5800,7 +5800,18 @@ func (t TimeRange) MaxTimeNano() int64 {
 	if t.Max.IsZero() {
 		return MaxTime
 	}
-	return t.Max.UnixNano()
+	return saturatedUnixNano(t.Max)
+}
+
+// saturatedUnixNano is t.UnixNano() for times an int64 can represent and the
+// nearest int64 otherwise (UnixNano itself is undefined there and wraps).
+func saturatedUnixNano(t time.Time) int64 {
+	if t.After(time.Unix(0, math.MaxInt64)) {
+		return math.MaxInt64
+	} else if t.Before(time.Unix(0, math.MinInt64)) {
+		return math.MinInt64
+	}
+	return t.UnixNano()
 }
 
 // ConditionExpr extracts the time range and the condition from an expression.
